@@ -510,7 +510,7 @@ class C04(Prop):
             '`connection` rows; projection of each connection (lines without times, object table with alive flags, role, count) must equal the '
             'run of that connection alone, the other merge order and the reference model. sink-machine: Hypothesis rule-based machine over '
             'open/message/close on the connection-id sink vs a model. non-trivial = >= 2 connections sharing an id with >= 1 switch between '
-            'consecutive lines / a re-open after close; distinct by SHA-1 of the case. many-tags: logs of 703..1040 and of 18 300 tags through the line loop: names in shortlex order, one New and one Closed notice each, per-connection record, `connection NAME` + `list` shows that connection only.')
+            'consecutive lines / a re-open after close; distinct by SHA-1 of the case. many-tags: logs of 703..1040 and of 18 300 tags through the line loop: names in shortlex order, one New and one Closed notice each, per-connection record, `connection NAME` + `list` shows that connection only. The sink machine also issues the `connection` command without argument and compares the rows (marker of the selected connection, name, role, state, count) with the model; names that denote no connection are refused and leave the selection alone.')
     assumptions = ['projections exclude time-valued text (relative to the global first message: C16)',
                    'the role is asserted against the model only when the first message is get_registry; otherwise alone-vs-interleaved only']
     stages = [Isolation(), ManyTags(), Sink()]
